@@ -307,7 +307,7 @@ func TestVerifC03(t *testing.T) {
 	}
 	deadline := rep.Deadline(10 * time.Minute)
 	src1, probes1 := c03Sources, c03Probes
-	for _, c := range cfgs {
+	for ci, c := range cfgs {
 		c03Sources, c03Probes, c03Equal, c03MoreEqual = src1, probes1, []string{"e"}, nil
 		if c.part == "inhibitor-two-equal-labels" {
 			c03Sources, c03Probes, c03Equal = c03Sources2, c03Probes2, []string{"e", "f"}
@@ -339,7 +339,7 @@ func TestVerifC03(t *testing.T) {
 		if rep.Thorough() {
 			d = c.dT
 		}
-		e := &seqx.Engine{Alphabet: names, MaxDepth: d, Prune: c.prune, Report: R, Deadline: deadline,
+		e := &seqx.Engine{Alphabet: names, MaxDepth: d, Prune: c.prune, Report: R, Deadline: rep.Share(deadline, ci, len(cfgs)),
 			Run: func(h []int) seqx.Result { return c03Run(t, evs, h, c.prune) }}
 		e.Explore()
 		R.Write()
